@@ -284,6 +284,38 @@ Definition jw_violates (c : jw_case) : bool :=
   | Some (d, m) => jw_valid c && negb (envelope_rt_ok d m (jw_got c))
   | None => match jw_got c with Ok (d, _) => str_eqb d [] | Err _ => false end
   end.
+(** message context through the envelope: the model's wrap_c / unwrap_c against the observed contexts *)
+Record ctx_case := CtxC { x_in : N; x_delivered : N; x_wrapped : N; x_unwrapped : N }.
+Definition ctx_mismatch (c : ctx_case) : bool :=
+  let m0 := Msg [] None None in
+  match wrap_c (fun _ => Some []) [85]%N [116]%N (m0, x_in c) with
+  | Ok w =>
+      negb (N.eqb (snd w) (x_wrapped c)
+            && match unwrap_c (fun _ => Some (env_of [116]%N m0)) (fst w, x_delivered c) with
+               | Ok (_, (_, cu)) => N.eqb cu (x_unwrapped c)
+               | Err _ => false
+               end)
+  | Err _ => true
+  end.
+Definition ctx_mismatches (cs : list ctx_case) := positions (map ctx_mismatch cs).
+
+(** different marshalers on the two sides *)
+Record cc_case := CcC { y_c : cq_case; y_kind_u : nat; y_nofb_u : bool }.
+Definition cc_unmarshal (x : cc_case) (m : msg) : res str :=
+  let c := y_c x in
+  match y_kind_u x with
+  | 1 => proto_unmarshal str (k_ismsg c) (fun _ => k_vdec c) m
+  | _ => gogo_unmarshal str (k_ismsg c) (fun _ => k_vdec c) (k_isgogo c) (fun _ => k_gdec c) (y_nofb_u x) repo_gogo_fixed m
+  end.
+Definition cc_mismatch (x : cc_case) : bool :=
+  let c := y_c x in
+  negb (res_eqb msg_obs_eqb (cq_marshal c) (k_marshal c)
+        && match k_marshal c with
+           | Ok m => res_eqb str_eqb (cc_unmarshal x m) (k_unmarshal c)
+           | Err _ => true
+           end).
+Definition cc_mismatches (cs : list cc_case) := positions (map cc_mismatch cs).
+
 Definition js_mismatches (cs : list js_case) := positions (map js_mismatch cs).
 Definition b64_mismatches (cs : list b64_case) := positions (map b64_mismatch cs).
 Definition jw_mismatches (cs : list jw_case) := positions (map jw_mismatch cs).
